@@ -76,7 +76,7 @@ def _case(rng, copt, sopt, hp, sizes, nrounds, backend, noise):
 def generate(tier, rng):
   if tier != 'search':
     fs.prestart('c01', ['pmap3', 'rbg', 'hash1'] + ([] if tier == 'quick' else ['tfp0', 'tfp1', 'x64', 'rankraise', 'hash2']))
-  n_cfg = {'quick': 42, 'thorough': 260, 'search': 400}[tier]
+  n_cfg = {'quick': 32, 'thorough': 260, 'search': 400}[tier]
   # fixed corner cases first: all-empty rounds, zero clients, drop_remainder with n < bs, every backend
   for b in BACKENDS:
     yield _case(rng, SGD(0.125), SGD(1.0), _hp(HPS[0], 1), [0, 0], 2, b, True)
@@ -156,6 +156,11 @@ def generate(tier, rng):
   # population, weights exactly 1, one batch that holds the whole dataset
   yield _case(rng, SGD(0.125, 0.5), SGD(1.0, 0.5), _hp((4, 1, None, False), 4), [4], 3, 'jit', True)
   yield _case(rng, SGD(0.125, 0.5), SGD(1.0, 0.5), _hp((1, 1, None, False), 4), [1, 1, 1], 3, 'pmap', True)
+  # round-6 seed C01-x1: batches that span more than one extra pass over a small dataset (1 < N < batch_size,
+  # batch_size = 2N+1, 3N, 3N+1, several epochs / steps): the CONTENT of such batches, not only their shape
+  for j, (n, bs) in enumerate(((2, 5), (2, 6), (2, 7), (3, 7), (3, 9), (3, 10), (5, 11), (4, 12), (5, 16))):
+    hp = _hp((bs, 2, None, False) if j % 2 else (bs, None, 3, False), j)
+    yield _case(rng, SGD(0.0625), SGD(1.0), hp, [n, 0, n + 1], 2, ['jit', 'pmap', 'debug'][j % 3], True)
   # federated_averaging is built many times per process from the SAME grad_fn object (fedsim.shared_grad) with different
   # optimizers / hparams; re-run the first-built algorithm objects after all the others exist (hidden shared state)
   for b in BACKENDS[:2]:
@@ -385,6 +390,8 @@ def oracle(case, obs):
     n = len(case['pop'][c]['y'])
     if len(st) != fs.expected_num_steps(n, hp) or any(len(b) != hp['bs'] or any(not 0 <= i < n for i in b) for b in st):
       out.append(('batch-stream', f'client {c} (n={n}): unexpected shuffle_repeat_batch stream'))
+    elif not fs.stream_content_ok(n, st):
+      out.append(('batch-stream-content', f'client {c} (n={n}): the batches {st} are not consecutive passes over the dataset (each window of n indices a permutation)'))
   prev_p = np.array(case['init'], dtype=np.float64)
   prev_t = []
   ref_srv = fs.RefOpt(case['sopt'], fs.D)
